@@ -97,6 +97,27 @@ func main() {
 		fmt.Printf("INCONCLUSIVE property=%s oracle self-test failed\n", cmd)
 		os.Exit(2)
 	}
+	// In-process monitors shard their case lists over a worker pool.  The properties they decide
+	// are about single calls, so a refuting observation made while other workers were running is
+	// re-established with one worker before it is reported: a defect that needs concurrency to
+	// manifest is C19/C20's business and must not be blamed on a sequential property.
+	inProcess := map[string]bool{"C01": true, "C02": true, "C03": true, "C04": true, "C05": true, "C06": true, "C07": true, "C08": true,
+		"C11": true, "C12": true, "C13": true, "C14": true, "C15": true, "C16": true, "C18": true}
+	if inProcess[cmd] && len(rest) == 0 && os.Getenv("VERIF_CHILD") == "" {
+		e := checks.NewEnv(cmd, tier, seed, only)
+		e.R.Quiet = true
+		f(e)
+		if e.R.Violations() == 0 {
+			e.R.Quiet = false
+			os.Exit(e.R.Finish())
+		}
+		fmt.Printf("%s: %d refuting observations in the sharded pass; re-establishing them with a single worker\n", cmd, e.R.Violations())
+		e2 := checks.NewEnv(cmd, tier, seed, only)
+		e2.Workers = 1
+		e2.R.Set("note", fmt.Sprintf("the sharded (16-worker) pass made %d refuting observations; this evidence is from the single-worker re-run that decides", e.R.Violations()))
+		f(e2)
+		os.Exit(e2.R.Finish())
+	}
 	e := checks.NewEnv(cmd, tier, seed, only)
 	e.Args = rest
 	f(e)
